@@ -81,3 +81,92 @@ def rel_class(mn, mx, k):
     if (mn, mx) == (0, 1):
         return "mutex"
     return "cardinal"
+
+
+# ----------------------------------------------------------------------------- metrics (C17)
+def _round2(x):
+    return round(x, 2)
+
+
+def metrics_reference(spec):
+    """name -> dict(result=..., size=..., share_of=<name of the listing it is a share of | None>,
+    kind='listing'|'scalar'|'value').  Constraint-kind listings are not defined here (they are judged
+    against the Constraint predicates, which C18 judges semantically)."""
+    import statistics
+    feats = list(S.features(spec["root"]))
+    names = [f["name"] for f in feats]
+    par = S.parents(spec)
+    grouped, solitary, mandatory, optional = [], [], [], []
+    for f in feats:
+        for r in f.get("rels", []):
+            k = len(r["children"])
+            for c in r["children"]:
+                (grouped if k > 1 else solitary).append(c["name"])
+                if k == 1 and (r["min"], r["max"]) == (1, 1):
+                    mandatory.append(c["name"])
+                if k == 1 and (r["min"], r["max"]) == (0, 1):
+                    optional.append(c["name"])
+    abstract = [f["name"] for f in feats if f.get("abstract")]
+    concrete = [f["name"] for f in feats if not f.get("abstract")]
+    leaf = [f["name"] for f in feats if not f.get("rels")]
+    compound = [f["name"] for f in feats if f.get("rels")]
+    isleaf = set(leaf)
+    nrel = sum(len(f.get("rels", [])) for f in feats)
+
+    def has(f, kind):
+        return any(rel_class(r["min"], r["max"], len(r["children"])) == kind for r in f.get("rels", []))
+    groups = [f["name"] for f in feats if any(len(r["children"]) > 1 for r in f.get("rels", []))]
+    nchild = {f["name"]: sum(len(r["children"]) for r in f.get("rels", [])) for f in feats}
+    depths = leaf_depths(spec)
+    ctc_names = [S.ast_names(c["ast"]) for c in spec.get("ctcs", [])]
+    cpf = [sum(n in cn for cn in ctc_names) for n in names]
+    fic = sorted(set().union(*ctc_names)) if ctc_names else []
+    nch, nb = branching(spec)
+    L = "listing"
+    out = {
+        "Features": dict(result=names, size=len(names), share_of=None, kind=L),
+        "Abstract features": dict(result=abstract, size=len(abstract), share_of="Features", kind=L),
+        "Concrete features": dict(result=concrete, size=len(concrete), share_of="Features", kind=L),
+        "Leaf features": dict(result=leaf, size=len(leaf), share_of="Features", kind=L),
+        "Compound features": dict(result=compound, size=len(compound), share_of="Features", kind=L),
+        "Concrete compound features": dict(result=[n for n in concrete if n not in isleaf], share_of="Concrete features", kind=L),
+        "Concrete leaf features": dict(result=[n for n in concrete if n in isleaf], share_of="Concrete features", kind=L),
+        "Abstract compound features": dict(result=[n for n in abstract if n not in isleaf], share_of="Abstract features", kind=L),
+        "Abstract leaf features": dict(result=[n for n in abstract if n in isleaf], share_of="Abstract features", kind=L),
+        "Tree relationships": dict(result=None, size=nrel, share_of=None, kind=L),
+        "Root feature": dict(result=spec["root"]["name"], size=1, share_of="Features", kind="scalar"),
+        "Top features": dict(result=[c["name"] for r in spec["root"].get("rels", []) for c in r["children"]],
+                             share_of="Features", kind=L),
+        "Solitary features": dict(result=solitary, share_of="Features", kind=L),
+        "Grouped features": dict(result=grouped, share_of="Features", kind=L),
+        "Mandatory features": dict(result=mandatory, share_of="Solitary features", kind=L),
+        "Optional features": dict(result=optional, share_of="Solitary features", kind=L),
+        "Feature groups": dict(result=groups, share_of="Tree relationships", kind=L),
+        "Alternative groups": dict(result=[f["name"] for f in feats if has(f, "alternative")], share_of="Feature groups", kind=L),
+        "Or groups": dict(result=[f["name"] for f in feats if has(f, "or")], share_of="Feature groups", kind=L),
+        "Mutex groups": dict(result=[f["name"] for f in feats if has(f, "mutex")], share_of="Feature groups", kind=L),
+        "Cardinality groups": dict(result=[f["name"] for f in feats if has(f, "cardinal")], share_of="Feature groups", kind=L),
+        "Branching factor": dict(result=(nch / nb) if nb else None, kind="value", tol=0.005),
+        "Min children per feature": dict(result=min((nchild[n] for n in compound), default=None), kind="value"),
+        "Max children per feature": dict(result=max(nchild.values()), kind="value"),
+        "Avg children per feature": dict(result=sum(nchild.values()) / len(names), kind="value", tol=0.005),
+        "Depth of tree": dict(result=max(depths), kind="value"),
+        "Max depth of tree": dict(result=max(depths), kind="value"),
+        "Mean depth of tree": dict(result=statistics.mean(depths), kind="value", tol=0.005),
+        "Median depth of tree": dict(result=statistics.median(depths), kind="value", tol=0.005),
+        "Cross-tree constraints": dict(result=None, size=len(spec.get("ctcs", [])), share_of=None, kind=L),
+        "Simple constraints": dict(result=None, share_of="Cross-tree constraints", kind=L),
+        "Requires constraints": dict(result=None, share_of="Simple constraints", kind=L),
+        "Excludes constraints": dict(result=None, share_of="Simple constraints", kind=L),
+        "Complex constraints": dict(result=None, share_of="Cross-tree constraints", kind=L),
+        "Pseudo-complex constraints": dict(result=None, share_of="Complex constraints", kind=L),
+        "Strict-complex constraints": dict(result=None, share_of="Complex constraints", kind=L),
+        "Min constraints per feature": dict(result=min(cpf), kind="value"),
+        "Max constraints per feature": dict(result=max(cpf), kind="value"),
+        "Avg constraints per feature": dict(result=statistics.mean(cpf), kind="value", tol=0.005),
+        "Features in constraints": dict(result=fic, share_of="Features", kind=L),
+    }
+    for v in out.values():
+        if v.get("kind") == L and v.get("result") is not None and "size" not in v:
+            v["size"] = len(v["result"])
+    return out
